@@ -181,7 +181,7 @@ class C14(runner.Prop):
     tree_keys = ('t', 'u')
 
     def budget(self, tier):
-        return 200 if tier == "quick" else 3000
+        return 200 if tier == "quick" else 1000
 
     def strategy(self, tier):
         ml = 10 if tier == 'quick' else 16
